@@ -4,10 +4,10 @@ from concurrent.futures import ThreadPoolExecutor
 
 LEVEL = "proof"
 LIBS = ["ShuffleLemmas.vo"]
-PARTS = ["css", "mix", "glue", "imp"]
+PARTS = ["css", "mix", "glue", "imp", "qr"]
 
 def run(res, tier, seed, replay):
-    res.cov["rule"] = ("records = real TMCG_CreateStackSecret calls under scripted/logged coins (all coin vectors for n<=4, 5 in thorough; "
+    res.cov["rule"] = ("records = real TMCG_CreateStackSecret calls under scripted/logged coins (all coin vectors for n<=5, 6 in thorough; "
                        "sizes up to TMCG_MAX_CARDS), real TMCG_MixStack (all permutations n<=4/5, sampled beyond, repeated types), "
                        "TMCG_GlueStackSecret, TMCG_StackSecret::import (all n^n index vectors n<=4, 5 thorough) on small real VTMF groups; "
                        "every record is recomputed by the extracted Coq model and compared; PROPFAIL = the property itself failing on the "
@@ -39,15 +39,24 @@ def run(res, tier, seed, replay):
                 res.violation("harness-crash", "harness c02 (part %s) exited with %d: %s" % (p, rc, err[-800:]),
                               dict(kind="harness", cmd="c02 --tier %s --seed %d --only %s" % (tier, s, p), stderr=err[-2000:]))
             outs.append((s, p, out))
+    allprops, allmism = [], []
     for s, p, out in outs:
+        for l in out.split("\n"):
+            if l.startswith("NOTE "):
+                res.notes.append("seed %d: %s" % (s, l[5:]))
         mism, props = vpl.correspond(res, "C02", out, drv)
-        for pl in props:
-            parts = pl.split(" ", 2)
-            res.violation(parts[1], "shuffle property fails on the implementation: " + parts[2][:1500],
-                          dict(kind="propfail", harness="c02", seed=s, tier=tier, part=p, line=pl[:4000]))
-        for m in mism[:6]:
-            mm = m.split(" :: ", 1)
-            rec = mm[1] if len(mm) > 1 else ""
-            res.violation("correspondence", "model and implementation disagree: " + m[:600],
-                          dict(kind="correspondence", harness="c02", seed=s, tier=tier, part=p, record=rec[:20000], detail=m[:2000]),
-                          found_input=bool(rec))
+        allprops += [(s, p, pl) for pl in props]
+        allmism += [(s, p, m) for m in mism[:6]]
+    # property failures with a concrete failing input first, one per key first, then the rest
+    seen = set()
+    allprops.sort(key=lambda t: (t[2].split(" ", 2)[1] in seen) or seen.add(t[2].split(" ", 2)[1]) or False)
+    for s, p, pl in allprops:
+        parts = pl.split(" ", 2)
+        res.violation(parts[1], "shuffle property fails on the implementation: " + parts[2][:1500],
+                      dict(kind="propfail", harness="c02", seed=s, tier=tier, part=p, line=pl[:4000]))
+    for s, p, m in allmism:
+        mm = m.split(" :: ", 1)
+        rec = mm[1] if len(mm) > 1 else ""
+        res.violation("correspondence", "model and implementation disagree: " + m[:600],
+                      dict(kind="correspondence", harness="c02", seed=s, tier=tier, part=p, record=rec[:20000], detail=m[:2000]),
+                      found_input=bool(rec))
